@@ -153,6 +153,8 @@ fn scenario(ctx: &Ctx, out: &mut Outcome, rng: &mut Rng, idx: u64) {
     let faults: Vec<Fault> = (0..nfaults)
         .map(|_| Fault { actor: None, index: rng.below(120), mode: if rng.chance(1, 2) { FaultMode::Before } else { FaultMode::After } })
         .collect();
+    // a burst of lost compare-and-swap races on the metadata objects (5 = a client's whole retry budget)
+    let contention: Option<(u64, u64)> = if !local_backend && rng.chance(1, 5) { Some((rng.below(25), *rng.pick(&[2u64, 5, 5, 7]))) } else { None };
     let crash_at: Option<u64> = if rng.chance(1, 3) { Some(rng.below(90)) } else { None };
     let jump_permille = *rng.pick(&[0u64, 0, 15, 40]);
     let strategy = if rng.chance(2, 3) { Strategy::Uniform } else { Strategy::Pct { change_points: (0..3).map(|_| rng.below(120)).collect() } };
@@ -161,7 +163,7 @@ fn scenario(ctx: &Ctx, out: &mut Outcome, rng: &mut Rng, idx: u64) {
     let mut clock_rng = rng.fork(3);
     let plan_json = json!({"backend": if local_backend {"local"} else {"object-store"}, "compactors": ncomp, "chunks": nchunks, "hour_buckets": nbuckets,
         "mixed_schema": mixed, "cycles_each": cycles_per, "faults": faults.iter().map(|f| format!("#{} {:?}", f.index, f.mode)).collect::<Vec<_>>(),
-        "crash_at_step": crash_at, "clock_jump_permille": jump_permille,
+        "crash_at_step": crash_at, "clock_jump_permille": jump_permille, "lost_cas_burst": contention.map(|(f, c)| format!("conditional PUTs #{}..#{}", f, f + c)),
         "configs": cfgs.iter().map(|c| format!("l0_threshold={} l1_target={} l2_target={} max_levels={} grace={:?}", c.l0_merge_threshold, c.l1_target_size, c.l2_target_size, c.max_levels, c.gc_grace_period)).collect::<Vec<_>>()});
     let faults2 = faults.clone();
 
@@ -199,6 +201,7 @@ fn scenario(ctx: &Ctx, out: &mut Outcome, rng: &mut Rng, idx: u64) {
         let start = ctl.events_len();
         ctl.reset_counters();
         ctl.set_faults(faults2);
+        ctl.set_contention(contention.map(|(from, count)| sim::Contention { path_contains: ".json".into(), from, count }));
         // with the in-memory backend the catalog calls themselves are the gates
         ctl.set_gating(true);
         let monitor = Arc::new(ShardMonitor::new(HotShardConfig::default()));
@@ -289,6 +292,7 @@ fn scenario(ctx: &Ctx, out: &mut Outcome, rng: &mut Rng, idx: u64) {
         }
         ctl.set_gating(false);
         ctl.set_faults(vec![]);
+        ctl.set_contention(None);
         index_new(&ctl, &mut scanned, &mut chunk_ids).await;
         // final state through a fresh client
         let fresh: Arc<dyn MetadataClient> = if local_backend {
@@ -331,6 +335,8 @@ fn scenario(ctx: &Ctx, out: &mut Outcome, rng: &mut Rng, idx: u64) {
     out.count("cycles_failed", res.cycles.iter().filter(|c| c.contains("err")).count() as u64);
     let injected = res.events.iter().filter(|e| e.result.starts_with("injected")).count() as u64;
     out.count("injected_faults_hit", injected);
+    out.count("lost_cas_races_injected", res.events.iter().filter(|e| e.actor == "contender" && !e.call).count() as u64);
+    out.count("cycles_failed_with_retry_exhaustion", res.cycles.iter().filter(|c| c.to_lowercase().contains("retries")).count() as u64);
     let original: BTreeSet<i64> = res.original.iter().cloned().collect();
     let witness = |extra: Value| {
         json!({"scenario_index": idx, "seed": ctx.seed, "plan": plan_json, "decisions": res.decisions, "cycles": res.cycles, "detail": extra,
